@@ -53,6 +53,7 @@ let obs (st : xstate) : string =
 let st = ref (init_state N0 N0 N0 false)
 let conts : (int, cont) Hashtbl.t = Hashtbl.create 16
 let dead = ref false
+let hyp_broken : string option ref = ref None
 let nsteps = ref 0
 
 let find_sub (sep : string) (s : string) (from : int) : int option =
@@ -87,7 +88,11 @@ let try_alt (w : string list) : (xstate * contact) option =
        let r = match List.nth w 2 with
          | "M" -> PMore (bs, N0) | "F" -> PFinish (bs, n 5) | "E" -> PErr (bs, n 5)
          | _ -> POk (bs, N0, n 5, n 6) in
-       ev (EvParse1 (att, r)) (Clear (i 1))
+       (* label hypothesis ev_prog (SchedX/XOwn.v): a confirmed block starts >= HDR_MIN = 32 bits after the one confirmed before it *)
+       (match r with
+        | POk _ when ni bs.d_bit < ni s.x_next + 32 ->
+          hyp_broken := Some (Printf.sprintf "ev_prog: parse OK at bit %d, the block confirmed before it is at bit %d" (ni bs.d_bit) (ni s.x_next)); None
+        | _ -> ev (EvParse1 (att, r)) (Clear (i 1)))
      | _ -> None)
   | "R0" :: _ ->
     let cands = List.filter (fun (j : rjob) -> ni (fst j.r_base) = i 2 && ni j.r_cur.d_bit = i 3 && ni j.r_cur.d_off = i 4) s.x_retr_q in
@@ -115,7 +120,13 @@ let try_alt (w : string list) : (xstate * contact) option =
      | Some (CScan (sc, att)) ->
        let s' = { d_bit = n 3; d_off = n 4 } in
        let more = ni s'.d_off < ni (att_end att s) in
-       ev (EvScan1 (sc, att, i 2 <> 0, s', more)) (Clear (i 1))
+       (* label hypotheses ev_scan_prog / ev_fresh (SchedX/XLiveDefs.v): a scan that finds a magic ends strictly after
+          the position it started from, and never reports the base of a candidate that is still queued *)
+       if i 2 <> 0 && ni s'.d_bit <= ni sc.d_bit then begin
+         hyp_broken := Some (Printf.sprintf "ev_scan_prog: scan from bit %d reports a magic ending at bit %d" (ni sc.d_bit) (ni s'.d_bit)); None end
+       else if i 2 <> 0 && List.exists (fun (u : unord) -> ni (fst u.u_base) = ni s'.d_bit) (unord_q s) then begin
+         hyp_broken := Some (Printf.sprintf "ev_fresh: scan reports bit %d, which is the base of a queued candidate" (ni s'.d_bit)); None end
+       else ev (EvScan1 (sc, att, i 2 <> 0, s', more)) (Clear (i 1))
      | _ -> None)
   | "CS" :: t :: _ -> if selects (task_of t) s then Some (s, Keep) else None
   | "CW" :: _ -> if idle_ok s then Some (s, Keep) else None
@@ -161,10 +172,14 @@ let () =
              let alts = split_on " | " alts in
              let expected = String.trim expected in
              let first_got = ref "no alternative has a defined step" in
+             hyp_broken := None;
              let rec go = function
                | [] ->
                  dead := true;
-                 print_endline ("MISMATCH after " ^ string_of_int !nsteps ^ " steps at `" ^ String.trim (List.hd alts) ^ "`: model: " ^ !first_got ^ " :: trace: " ^ expected ^ " :: before: " ^ obs !st)
+                 (match !hyp_broken with
+                  | Some m -> print_endline ("MISMATCH label hypothesis of the SchedX theorems violated by the trace after " ^ string_of_int !nsteps ^ " steps at `" ^ String.trim (List.hd alts) ^ "`: " ^ m ^ " :: before: " ^ obs !st)
+                  | None ->
+                 print_endline ("MISMATCH after " ^ string_of_int !nsteps ^ " steps at `" ^ String.trim (List.hd alts) ^ "`: model: " ^ !first_got ^ " :: trace: " ^ expected ^ " :: before: " ^ obs !st))
                | a :: rest ->
                  let aw = words a in
                  (match (try try_alt aw with Failure _ | Invalid_argument _ | Not_found -> None) with
